@@ -113,6 +113,11 @@ func VerifC18_Tamper() {
 	t := append([]byte{}, data...)
 	t[pos] ^= verif_U8("xor")
 	verif_Assume(!bytes.Equal(t, data))
+	if verif_Bool("genuineRequestReadFirst") {
+		// having accepted the genuine request must not make an altered copy acceptable
+		g, gerr := ReadIngestRequest(data)
+		verif_Assert(gerr == nil && g != nil, "the genuine request is accepted")
+	}
 	req, rerr := ReadIngestRequest(t)
 	verif_Reach("read")
 	verif_Assert(rerr != nil && req == nil, "an altered sealed ingest request is rejected")
